@@ -189,6 +189,9 @@ impl Prop for Reloads {
     fn max_shrink_iters(&self) -> u32 {
         40
     }
+    fn case_timeout_s(&self) -> u64 {
+        600
+    }
     fn cases(&self, tier: Tier) -> u64 {
         tier.pick(96, 3_200)
     }
